@@ -5,6 +5,14 @@
 
 package app
 
+// ---------------------------------------------------------------- algebra used by the block reward proof (proved once, without program context)
+//@ ghost func tDistrib(a int, b int, c int) bool = (a + b) * c == a * c + b * c
+//@ theorem tDistrib   // C13.algebra
+//@ ghost func tDistribL(c int, a int, b int) bool = c * (a + b) == c * a + c * b
+//@ theorem tDistribL   // C13.algebra
+//@ ghost func tCancel(a int, b int, c int) bool = c > 0 && a * c <= b * c ==> a <= b
+//@ theorem tCancel   // C13.algebra
+
 // floor division of totalRewards*validatorPower by totalPower
 //@ func getRewardForValidator
 //@   safety C18
@@ -16,6 +24,7 @@ package app
 //@   ensures big(result) * old(big(totalPower)) <= old(big(totalRewards)) * old(big(validatorPower))            // C13.share-floor
 //@   ensures old(big(totalRewards)) * old(big(validatorPower)) < big(result) * old(big(totalPower)) + old(big(totalPower))   // C13.share-floor
 //@   ensures old(big(totalRewards)) >= 0 && old(big(validatorPower)) >= 0 ==> big(result) >= 0                  // C13.share-floor
+//@   ensures big(result) == (old(big(totalRewards)) * old(big(validatorPower))) / old(big(totalPower))          // C13.share-floor
 
 // ---------------------------------------------------------------- delegation pool's share of a block reward
 //
@@ -40,7 +49,7 @@ package app
 //@   requires appCtx != nil && appCtx.netwkDelegators != nil && appCtx.netwkDelegators.Deleg != nil && appCtx.netwkDelegators.Rewards != nil && appCtx.govern != nil   // C18.ctx
 //@   requires big(delegCtx.TotalPower) > 0 && big(delegCtx.DelegationPower) > 0                                 // C18.div-zero
 //@   requires ndActTotal(appCtx.netwkDelegators.Deleg) <= big(delegCtx.DelegationPower)                         // C12.pool-covers-active
-//@   modifies appCtx.netwkDelegators.Deleg.State, appCtx.netwkDelegators.Rewards.state, mapof(kvMap), ndRRaw(appCtx.netwkDelegators.Rewards), ndLastScan(appCtx.netwkDelegators.Deleg), vHas(appCtx.deliver), vVal(appCtx.deliver), gT(appCtx), gD(appCtx), gDR(appCtx), gC(appCtx), gPR(appCtx), gK(appCtx), gRC(appCtx), gPRT(appCtx)
+//@   modifies appCtx.netwkDelegators.Deleg.State, appCtx.netwkDelegators.Rewards.state, mapof(kvMap), ndRRaw(appCtx.netwkDelegators.Rewards), vHas(appCtx.deliver), vVal(appCtx.deliver), gT(appCtx), gD(appCtx), gDR(appCtx), gC(appCtx), gPR(appCtx), gK(appCtx), gRC(appCtx), gPRT(appCtx)
 //@   update gK(appCtx) := big(delegCtx.TotalRewards) * big(delegCtx.DelegationPower) - big(resp.Commission) * big(delegCtx.TotalPower) - big(resp.ProposerReward) * big(delegCtx.TotalPower)
 //@   update gRC(appCtx) := big(delegCtx.TotalRewards) + big(resp.Commission)
 //@   update gPRT(appCtx) := big(resp.ProposerReward) * big(delegCtx.TotalPower)
@@ -94,7 +103,8 @@ package app
 
 //@ func handleBlockRewards
 //@   safety C18
-//@   requires appCtx != nil && appCtx.rewardMaster != nil && appCtx.rewardMaster.Reward != nil && appCtx.rewardMaster.RewardCm != nil && appCtx.rewardMaster.Reward.rewardOptions != nil && appCtx.currencies != nil && appCtx.validators != nil && appCtx.govern != nil && appCtx.balances != nil && appCtx.netwkDelegators != nil && appCtx.netwkDelegators.Deleg != nil && appCtx.netwkDelegators.Rewards != nil   // C18.ctx
+//@   opaque-arith
+//@   requires appCtx != nil && appCtx.rewardMaster != nil && appCtx.rewardMaster.Reward != nil && appCtx.rewardMaster.RewardCm != nil && appCtx.rewardMaster.Reward.rewardOptions != nil && appCtx.currencies != nil && appCtx.validators != nil && appCtx.govern != nil && appCtx.balances != nil && appCtx.netwkDelegators != nil && appCtx.netwkDelegators.Deleg != nil && appCtx.netwkDelegators.Rewards != nil && appCtx.validators.store != nil   // C18.ctx
 //@   requires appCtx.rewardMaster.RewardCm.calculator != nil && appCtx.rewardMaster.RewardCm.rewardOptions != nil && appCtx.rewardMaster.RewardCm.calculator.options == appCtx.rewardMaster.RewardCm.rewardOptions && appCtx.rewardMaster.RewardCm.calculator.cached.amount != nil && allocated(appCtx.rewardMaster.RewardCm.calculator.cached.amount)   // C18.ctx
 //@   requires appCtx.rewardMaster.RewardCm.rewardOptions.BlockSpeedCalculateCycle > 0                           // C18.div-zero
 //@   requires appCtx.rewardMaster.RewardCm.calculator.blockStore != nil && block.Header.Height >= 1 && (forall h int :: { bmHas(appCtx.rewardMaster.RewardCm.calculator.blockStore, h) } 1 <= h && h <= block.Header.Height ==> bmHas(appCtx.rewardMaster.RewardCm.calculator.blockStore, h))   // C18.blockmeta
@@ -105,7 +115,6 @@ package app
 //@   assumes ndRKind(ndRewTotalKey(appCtx.netwkDelegators.Rewards)) == 2                                        // A-KEYS the "total_rewards" key is of the total family (c12's key vocabulary; text of the key)
 // store invariants: no negative record (C02), the delegation pool covers the active delegations (C12)
 //@   requires forall k string :: bal(appCtx.balances)[k] >= 0                                                   // C02.non-negative
-//@   requires forall k string :: rwd(appCtx.rewardMaster.Reward)[k] >= 0                                        // C02.non-negative
 //@   requires forall k string :: ndRRaw(appCtx.netwkDelegators.Rewards)[k] >= 0                                 // C02.non-negative
 //@   requires forall c string :: ndActTotal(appCtx.netwkDelegators.Deleg) <= bal(appCtx.balances)[balKey(bytes(ndPoolAddr()), c)]   // C12.pool-covers-active
 // Tendermint's LastCommitInfo: positive powers, pairwise distinct validator addresses (assumption on Tendermint)
@@ -117,9 +126,9 @@ package app
 //@   requires forall j int :: { vkeyI(appCtx)[j] } 0 <= j && j < len(block.LastCommitInfo.Votes) ==> vpwOf(appCtx)[vkeyI(appCtx)[j]] == vpwI(appCtx)[j]   // C13.tm-votes-ghost
 //@   requires forall j int :: { vkeyI(appCtx)[j] } 0 <= j && j < len(block.LastCommitInfo.Votes) && vkeyI(appCtx)[j] == addrStr(str(block.Header.ProposerAddress)) ==> j == propIdx(appCtx)   // C13.tm-votes-ghost
 //@   modifies appCtx.rewardMaster.Reward.State, appCtx.rewardMaster.RewardCm.state, appCtx.balances.State, appCtx.netwkDelegators.Deleg.State, appCtx.netwkDelegators.Rewards.state
-//@   modifies heap("big.Int"), heap("kv.Pair"), heap("types.VoteInfo"), heap("identity.Validator"), heap("types.Event"), allmodel("vHas"), allmodel("vVal"), allmodel("rwd"), allmodel("rwdTotal"), *appCtx.rewardMaster.RewardCm.calculator, fcBlocks(appCtx.rewardMaster.RewardCm.calculator), lastPulled(appCtx.rewardMaster.RewardCm)
+//@   modifies heap("big.Int"), heap("kv.Pair"), heap("types.VoteInfo"), heap("identity.Validator"), heap("types.Event"), allmodel("vHas"), allmodel("vVal"), allmodel("exhausted"), allmodel("rwd"), allmodel("rwdTotal"), *appCtx.rewardMaster.RewardCm.calculator, fcBlocks(appCtx.rewardMaster.RewardCm.calculator), lastPulled(appCtx.rewardMaster.RewardCm)
 //@   modifies cum(appCtx.rewardMaster.RewardCm), yCount(appCtx.rewardMaster.RewardCm), yDist(appCtx.rewardMaster.RewardCm), yTill(appCtx.rewardMaster.RewardCm)
-//@   modifies gT(appCtx), gD(appCtx), gDR(appCtx), gC(appCtx), gPR(appCtx), gK(appCtx), gRC(appCtx), gPRT(appCtx), ndRRaw(appCtx.netwkDelegators.Rewards), ndRPendTotal(appCtx.netwkDelegators.Rewards), ndLastScan(appCtx.netwkDelegators.Deleg), bal(appCtx.balances), balTotal(appCtx.balances)
+//@   modifies gT(appCtx), gD(appCtx), gDR(appCtx), gC(appCtx), gPR(appCtx), gK(appCtx), gRC(appCtx), gPRT(appCtx), ndRRaw(appCtx.netwkDelegators.Rewards), ndRPendTotal(appCtx.netwkDelegators.Rewards), bal(appCtx.balances), balTotal(appCtx.balances)
 // NOTE on loop numbers: the engine orders loop headers by source position and falls back to the SSA block index for
 // range loops whose header has no position; in this function that gives  loop3 = first vote loop (powers),
 // loop1 = second vote loop (credits), loop2 = range over kvMap, loop4 = attribute loop (checked by probing).
@@ -140,7 +149,6 @@ package app
 //@   invariant loop1: totalRewards != nil && totalPower != nil && totValPower == totalPower && delegationPower != nil && delegationPower != totalPower && totalConsumed != nil && validatorPowerMap != nil && delegationResp != nil   // C13.frame
 //@   invariant loop1: forall j int :: 0 <= j && j < len(votes) ==> has(validatorPowerMap, vkeyI(appCtx)[j])    // C13.power-map
 //@   invariant loop1: forall k string :: has(validatorPowerMap, k) ==> validatorPowerMap[k] != nil && big(validatorPowerMap[k]) == vpwOf(appCtx)[k]   // C13.power-map
-//@   invariant loop1: lastPulled(appCtx.rewardMaster.RewardCm) >= 0 ==> forall k string :: rwd(appCtx.rewardMaster.Reward)[k] >= 0    // C13.records-non-negative
 // All arithmetic invariants are over integers that do not live in the heap of big.Ints (ghost records, ledgers):
 // Rg = lastPulled(RewardCm) (= R), gT/gD/gDR/gC/gPR = the record handleDelegationRewards left, V = vsum[len(votes)].
 // The link invariants tie the heap cells to them.
@@ -149,30 +157,32 @@ package app
 //@   invariant loop1: big(delegationPower) == 0 ==> big(totalPower) == vsum(appCtx)[len(votes)]              // C13.link
 //@   invariant loop1: big(delegationPower) == bal(appCtx.balances)[balKey(bytes(ndPoolAddr()), appCtx.currencies.idMap[0].Name)] && bal(appCtx.balances) == old(bal(appCtx.balances))   // C13.link
 //@   invariant loop1: lastPulled(appCtx.rewardMaster.RewardCm) >= 0 ==> 0 <= ndRewTotal(appCtx.netwkDelegators.Rewards) - old(ndRewTotal(appCtx.netwkDelegators.Rewards)) && ndRewTotal(appCtx.netwkDelegators.Rewards) - old(ndRewTotal(appCtx.netwkDelegators.Rewards)) <= (big(delegationPower) > 0 ? gDR(appCtx) : 0)   // C13.delegators-within-share
-// NOT USED while the two invariants below are disabled:   invariant loop1: big(delegationPower) > 0 && lastPulled(appCtx.rewardMaster.RewardCm) >= 0 ==> gDR(appCtx) >= 0 && gC(appCtx) >= 0 && gPR(appCtx) >= 0 && gRC(appCtx) >= 0 && gPRT(appCtx) >= 0 && gK(appCtx) + gRC(appCtx) * (gT(appCtx) - gD(appCtx)) + gPRT(appCtx) <= lastPulled(appCtx.rewardMaster.RewardCm) * gT(appCtx)   // C13.delegation-share
-// product instances for the coming iteration (so that the step is linear over the monomials)
-// NOT USED while the within-pulled invariants are disabled:   invariant loop1: $i < len(votes) && big(delegationPower) == 0 ==> lastPulled(appCtx.rewardMaster.RewardCm) * vsumN(appCtx)[$i] == lastPulled(appCtx.rewardMaster.RewardCm) * vsum(appCtx)[$i] + lastPulled(appCtx.rewardMaster.RewardCm) * vpwI(appCtx)[$i]   // C13.product-instance
-// NOT USED while the within-pulled invariants are disabled:   invariant loop1: $i < len(votes) && big(delegationPower) == 0 && lastPulled(appCtx.rewardMaster.RewardCm) >= 0 ==> lastPulled(appCtx.rewardMaster.RewardCm) * vpwI(appCtx)[$i] >= 0   // C13.product-instance
-// NOT USED while the two invariants below are disabled:   invariant loop1: $i < len(votes) && big(delegationPower) > 0 ==> gRC(appCtx) * vsumN(appCtx)[$i] == gRC(appCtx) * vsum(appCtx)[$i] + gRC(appCtx) * vpwI(appCtx)[$i] && gRC(appCtx) * vpwI(appCtx)[$i] == lastPulled(appCtx.rewardMaster.RewardCm) * vpwI(appCtx)[$i] + gC(appCtx) * vpwI(appCtx)[$i]   // C13.product-instance
-// NOT USED while the two invariants below are disabled:   invariant loop1: $i < len(votes) && big(delegationPower) > 0 && lastPulled(appCtx.rewardMaster.RewardCm) >= 0 ==> gRC(appCtx) * vpwI(appCtx)[$i] >= 0   // C13.product-instance
-// main: the running counter tc = totalConsumed (exact: tc grows by exactly the credited amount), scaled by the total power
-// NOT PROVED IN-ENGINE (solver limit, see report):   invariant loop1: lastPulled(appCtx.rewardMaster.RewardCm) >= 0 && big(delegationPower) > 0 && $i <= propIdx(appCtx) ==> big(totalConsumed) * gT(appCtx) <= gK(appCtx) + gRC(appCtx) * vsum(appCtx)[$i]   // C13.within-pulled
-// NOT PROVED IN-ENGINE (solver limit, see report):   invariant loop1: lastPulled(appCtx.rewardMaster.RewardCm) >= 0 && big(delegationPower) > 0 && $i > propIdx(appCtx) ==> big(totalConsumed) * gT(appCtx) <= gK(appCtx) + gRC(appCtx) * vsum(appCtx)[$i] + gPRT(appCtx)   // C13.within-pulled
-// NOT PROVED ROBUSTLY (10-60 s, solver-seed dependent, see report):   invariant loop1: len(votes) == 0 && big(delegationPower) == 0 ==> big(totalConsumed) == 0              // C13.within-pulled
-// NOT PROVED ROBUSTLY (10-60 s, solver-seed dependent, see report):   invariant loop1: lastPulled(appCtx.rewardMaster.RewardCm) >= 0 && big(delegationPower) == 0 ==> big(totalConsumed) * vsum(appCtx)[len(votes)] <= lastPulled(appCtx.rewardMaster.RewardCm) * vsum(appCtx)[$i]   // C13.within-pulled
+// ---- C13.within-pulled: the running counter tc = totalConsumed, scaled by the total power T, stays within
+//      (pulled amount R) x (power of the votes seen so far) [+ the delegation split]. The function is verified with
+//      opaque-arith: products are uninterpreted, and the ONLY algebra the proof may use are the ground instances of the
+//      theorems tDistrib / tDistribL / tCancel named with by() below (each names the terms of the COMING iteration:
+//      ra = (R*p)/T and ca = (C*p)/T are what getRewardForValidator returns for vote $i) plus the floor bounds and the
+//      split algebra that the callees' contracts state.
+//@   invariant loop1: big(delegationPower) > 0 && lastPulled(appCtx.rewardMaster.RewardCm) >= 0 ==> gDR(appCtx) >= 0 && gC(appCtx) >= 0 && gPR(appCtx) >= 0 && gRC(appCtx) >= 0 && gPRT(appCtx) >= 0 && gK(appCtx) + gRC(appCtx) * (gT(appCtx) - gD(appCtx)) + gPRT(appCtx) <= lastPulled(appCtx.rewardMaster.RewardCm) * gT(appCtx)   // C13.delegation-share
+//@   invariant loop1: $i < len(votes) && big(delegationPower) == 0 ==> by(tDistrib(big(totalConsumed), (lastPulled(appCtx.rewardMaster.RewardCm) * vpwI(appCtx)[$i]) / vsum(appCtx)[len(votes)], vsum(appCtx)[len(votes)])) && by(tDistribL(lastPulled(appCtx.rewardMaster.RewardCm), vsum(appCtx)[$i], vpwI(appCtx)[$i]))   // C13.algebra-instance
+//@   invariant loop1: $i < len(votes) && big(delegationPower) > 0 ==> by(tDistrib(big(totalConsumed), (lastPulled(appCtx.rewardMaster.RewardCm) * vpwI(appCtx)[$i]) / gT(appCtx) + (gC(appCtx) * vpwI(appCtx)[$i]) / gT(appCtx), gT(appCtx))) && by(tDistrib((lastPulled(appCtx.rewardMaster.RewardCm) * vpwI(appCtx)[$i]) / gT(appCtx), (gC(appCtx) * vpwI(appCtx)[$i]) / gT(appCtx), gT(appCtx))) && by(tDistribL(gRC(appCtx), vsum(appCtx)[$i], vpwI(appCtx)[$i])) && by(tDistrib(lastPulled(appCtx.rewardMaster.RewardCm), gC(appCtx), vpwI(appCtx)[$i]))   // C13.algebra-instance
+//@   invariant loop1: $i < len(votes) && big(delegationPower) > 0 && $i == propIdx(appCtx) ==> by(tDistrib(big(totalConsumed), (lastPulled(appCtx.rewardMaster.RewardCm) * vpwI(appCtx)[$i]) / gT(appCtx) + (gC(appCtx) * vpwI(appCtx)[$i]) / gT(appCtx) + gPR(appCtx), gT(appCtx))) && by(tDistrib((lastPulled(appCtx.rewardMaster.RewardCm) * vpwI(appCtx)[$i]) / gT(appCtx) + (gC(appCtx) * vpwI(appCtx)[$i]) / gT(appCtx), gPR(appCtx), gT(appCtx)))   // C13.algebra-instance
+//@   invariant loop1: len(votes) == 0 && big(delegationPower) == 0 ==> big(totalConsumed) == 0                                                 // C13.within-pulled
+//@   invariant loop1: lastPulled(appCtx.rewardMaster.RewardCm) >= 0 && big(delegationPower) == 0 ==> big(totalConsumed) * vsum(appCtx)[len(votes)] <= lastPulled(appCtx.rewardMaster.RewardCm) * vsum(appCtx)[$i]   // C13.within-pulled
+//@   invariant loop1: lastPulled(appCtx.rewardMaster.RewardCm) >= 0 && big(delegationPower) > 0 && $i <= propIdx(appCtx) ==> big(totalConsumed) * gT(appCtx) <= gK(appCtx) + gRC(appCtx) * vsum(appCtx)[$i]   // C13.within-pulled
+//@   invariant loop1: lastPulled(appCtx.rewardMaster.RewardCm) >= 0 && big(delegationPower) > 0 && $i > propIdx(appCtx) ==> big(totalConsumed) * gT(appCtx) <= gK(appCtx) + gRC(appCtx) * vsum(appCtx)[$i] + gPRT(appCtx)   // C13.within-pulled
 //@   invariant loop1: lastPulled(appCtx.rewardMaster.RewardCm) >= 0 ==> rwdTotal(appCtx.rewardMaster.Reward) - old(rwdTotal(appCtx.rewardMaster.Reward)) + (big(delegationPower) > 0 ? gDR(appCtx) : 0) <= big(totalConsumed)   // C13.credited-le-counted
 // ---- IterateAddrList callback (iter2): matured chunks move to the matured balance; nothing is credited here
 //@   invariant iter2: kvMap != nil && rewardMaster == appCtx.rewardMaster && options == appCtx.rewardMaster.Reward.rewardOptions && lastHeight == block.Header.Height && totalConsumed != nil   // C13.frame
 //@   invariant iter2: cum(appCtx.rewardMaster.RewardCm)[rwTotKey(appCtx.rewardMaster.RewardCm.prefix)] == old(cum(appCtx.rewardMaster.RewardCm))[rwTotKey(appCtx.rewardMaster.RewardCm.prefix)] && appCtx.rewardMaster.RewardCm.prefix == old(appCtx.rewardMaster.RewardCm.prefix)   // C13.frame
 //@   invariant iter2: lastPulled(appCtx.rewardMaster.RewardCm) >= 0 ==> rwdTotal(appCtx.rewardMaster.Reward) - old(rwdTotal(appCtx.rewardMaster.Reward)) + (ndRewTotal(appCtx.netwkDelegators.Rewards) - old(ndRewTotal(appCtx.netwkDelegators.Rewards))) <= big(totalConsumed)   // C13.credited-le-counted
-// NOT PROVED ROBUSTLY (10-60 s, solver-seed dependent, see report):   invariant iter2: lastPulled(appCtx.rewardMaster.RewardCm) >= 0 && old(bal(appCtx.balances))[balKey(bytes(ndPoolAddr()), appCtx.currencies.idMap[0].Name)] == 0 ==> big(totalConsumed) <= lastPulled(appCtx.rewardMaster.RewardCm)   // C13.within-pulled
+//@   invariant iter2: by(tCancel(big(totalConsumed), lastPulled(appCtx.rewardMaster.RewardCm), gT(appCtx))) && by(tCancel(big(totalConsumed), lastPulled(appCtx.rewardMaster.RewardCm), vsum(appCtx)[len(votes)])) && (lastPulled(appCtx.rewardMaster.RewardCm) >= 0 ==> big(totalConsumed) <= lastPulled(appCtx.rewardMaster.RewardCm))   // C13.within-pulled
 //@   invariant loop2: kvMap != nil && !old(allocated(arr(kvKeys)))                                              // C13.frame
 //@   invariant loop4: 0 <= $i && $i <= len(kvKeys) && kvMap != nil                                              // C13.frame
-// C13/C02: what the hook credits (validators' interval records + delegators' reward balances) never exceeds what it books as
-// distributed (totalConsumed, the counter the year accounting is fed with), unless the booking itself failed (the error of
-// ConsumeRewards is dropped by the code). The last link "totalConsumed <= amount pulled" is written down above
-// (C13.within-pulled invariants, with the algebra pre-digested in handleDelegationRewards' C13.split-algebra clauses) but
-// DISABLED: the loop-step obligations of the crediting path exceed what z3/cvc5 do reliably on this 160-line function
-// (proved for an empty delegation pool in 10-60 s depending on solver seed, not proved for a non-empty pool).
+// C13 (top-level clause of the property): in every block the rewards credited to validators (interval records), delegators
+// (delegation reward balances) and the proposer (part of its validator record) together never exceed the amount pulled for
+// that block. Also C02: they never exceed what is booked as distributed (unless the booking itself failed: the code drops
+// the error of ConsumeRewards), and the booked amount is within the pulled amount.
+//@   ensures lastPulled(appCtx.rewardMaster.RewardCm) >= 0 ==> rwdTotal(appCtx.rewardMaster.Reward) - old(rwdTotal(appCtx.rewardMaster.Reward)) + (ndRewTotal(appCtx.netwkDelegators.Rewards) - old(ndRewTotal(appCtx.netwkDelegators.Rewards))) <= lastPulled(appCtx.rewardMaster.RewardCm)   // C13.within-pulled
+//@   ensures lastPulled(appCtx.rewardMaster.RewardCm) >= 0 ==> cum(appCtx.rewardMaster.RewardCm)[rwTotKey(appCtx.rewardMaster.RewardCm.prefix)] - old(cum(appCtx.rewardMaster.RewardCm))[rwTotKey(appCtx.rewardMaster.RewardCm.prefix)] <= lastPulled(appCtx.rewardMaster.RewardCm)   // C13.within-pulled
 //@   ensures lastPulled(appCtx.rewardMaster.RewardCm) >= 0 ==> rwdTotal(appCtx.rewardMaster.Reward) - old(rwdTotal(appCtx.rewardMaster.Reward)) + (ndRewTotal(appCtx.netwkDelegators.Rewards) - old(ndRewTotal(appCtx.netwkDelegators.Rewards))) <= cum(appCtx.rewardMaster.RewardCm)[rwTotKey(appCtx.rewardMaster.RewardCm.prefix)] - old(cum(appCtx.rewardMaster.RewardCm))[rwTotKey(appCtx.rewardMaster.RewardCm.prefix)] || cum(appCtx.rewardMaster.RewardCm)[rwTotKey(appCtx.rewardMaster.RewardCm.prefix)] == old(cum(appCtx.rewardMaster.RewardCm))[rwTotKey(appCtx.rewardMaster.RewardCm.prefix)]   // C13.credited-le-booked
-// NOT PROVED ROBUSTLY (depends on the disabled invariants):   ensures lastPulled(appCtx.rewardMaster.RewardCm) >= 0 && old(bal(appCtx.balances))[balKey(bytes(ndPoolAddr()), appCtx.currencies.idMap[0].Name)] == 0 ==> cum(appCtx.rewardMaster.RewardCm)[rwTotKey(appCtx.rewardMaster.RewardCm.prefix)] - old(cum(appCtx.rewardMaster.RewardCm))[rwTotKey(appCtx.rewardMaster.RewardCm.prefix)] <= lastPulled(appCtx.rewardMaster.RewardCm)   // C13.within-pulled
